@@ -86,7 +86,7 @@ def check(run, prog, tier):
     me = ("self", INST)
 
     # ================================================================== O1 / O2 task shape
-    pol = InlineOnly(names=(), props=False, max_depth=0, unroll=2, cancel=True)
+    pol = InlineOnly(names=(), props=False, max_depth=0, unroll=3 if tier == "thorough" else 2, cancel=True)
     eng = engine(prog, pol)
     paths = eng.paths(ot, recv=INST)
     run.paths += len(paths)
